@@ -12,11 +12,11 @@ ASSUME = [
     "(division uninterpreted here; its value properties are C13)",
     "Iterator::next: the FIRST next() of the raw and of the simple iterator over two legal layouts ([data packet without a complete point, data packet with one point] and [data packet with one point]) "
     "delivers the point (symbolic device content constrained to that layout, any section position); also over an all-constant prototype with any bytes behind the section header",
-    "count/order bookkeeping, one inductive step for BOTH iterators: from a state in which the queue reader holds 2 complete points (any values; legal invalid-state) and `read` < `records` (both symbolic), "
-    "two next() calls deliver the OLDEST buffered point first, then the next one, each counting exactly one delivered point; None appears exactly when read reaches records, and the device is not touched while "
-    "complete points are buffered.  The row index is the identity tag.  Simple iterator: post-processing off (quick) and ANY setting of apply_pose / spherical_to_cartesian / cartesian_to_spherical / intensity_to_color "
+    "count/order bookkeeping, one inductive step for BOTH iterators: from a state in which the queue reader holds 2 (quick) / 3 (thorough) complete points (any values; legal invalid-state) and `read` < `records` (both symbolic), "
+    "as many next() calls deliver the OLDEST buffered point first, then the following ones in order, each counting exactly one delivered point; None appears exactly when read reaches records. "
+    "  The row index is the identity tag.  Simple iterator: post-processing off (quick) and ANY setting of apply_pose / spherical_to_cartesian / cartesian_to_spherical / intensity_to_color "
     "(thorough), where additionally each switch is shown not to change aspects it does not document (validity, stored Cartesian values without apply_pose, no spherical without c2s, no colour/intensity). "
-    "Batches of more than 2 points and refills in the middle of a batch are outside the bound",
+    "Larger batches and refills in the middle of a batch are outside the bound",
     "pop_point counterexamples are replayed natively through PointCloudReaderSimple::new over a sealed device, with the raw values pushed into the queues by a test-only helper",
 ]
 
